@@ -624,6 +624,27 @@ def goal_project(spec, pre, post):
   return ok, f"geom {g} world {w}: centre {c} radius {rad} -> lower {lo} upper {hi} sort_index {post['sort_index_out'][w, g]}"
 
 
+def goal_segtable(spec, pre, post):
+  """replay goal: thread (w, 0) must leave seg[w] = w*ngeom, thread (nworld-1, 0) also seg[nworld] = nworld*ngeom, and nothing else"""
+  import numpy as np
+
+  a = spec["args"]
+  sc = lambda v: int(v["scalar"]) if isinstance(v, dict) else int(v)
+  ng, nw = sc(a["ngeom"]), sc(a["nworld_in"])
+  w, g = spec["tid"][0], spec["tid"][1]
+  b = np.asarray(post["segmented_index_out"])
+  want = {}
+  if g == 0:
+    want[w] = w * ng
+    if w == nw - 1:
+      want[nw] = nw * ng
+  bad = [(k, int(b[k]), want.get(k, "untouched")) for k in range(len(b)) if (k in want and b[k] != want[k]) or (k not in want and b[k] != SEG_SENTINEL)]
+  return (not bad), f"thread ({w},{g}) ngeom={ng} nworld={nw}: segment boundaries (k, value, expected) {bad}"
+
+
+SEG_SENTINEL = -777
+
+
 def unit_project(ctx):
   from mujoco_warp._src import collision_driver as cd
 
@@ -650,6 +671,19 @@ def unit_project(ctx):
     nanrow = z3.And(lo == MAXVAL, hi == MAXVAL, si == g)
     ctx.prove(sess, f"project{bp}/interval", z3.Or(z3.And(lo == c - rad, hi == c + rad, si == g), nanrow), rb != 0, names={"w": w, "g": g}, replay=rp, desc="_sap_project: projection interval is not centre -/+ (rbound + margin + gap)")
     ctx.prove(sess, f"project{bp}/plane-unbounded", z3.Or(z3.And(lo <= c - MAXVAL, hi >= c + MAXVAL, si == g), nanrow), z3.And(rb == 0, mg >= 0, gp >= 0), names={"w": w, "g": g}, replay=rp, desc="_sap_project: a plane's projection interval is not unbounded")
+    if bp == 2:
+      # guarantee for the contract the sweep units assume: wp.utils.segmented_sort_pairs sorts segment k = [seg[k], seg[k+1]),
+      # so every world's projections are sorted only if seg[k] == k * ngeom for ALL k in 0..nworld (closing entry included)
+      kk = z3.Int("k")
+      ng, nw = kt.args["ngeom"], kt.args["nworld_in"]
+      segpre = [ng >= 1, nw >= 1, kt.cell("segmented_index_out").shape[0] == nw + 1, w >= 0, w < nw, g >= 0, g < ng]
+      s2 = ctx.session(kt.bg + pre + segpre)
+      ctx.reach(s2, "twin:segment-table", True)
+      nr = lib.make_replay(ctx, kt, loc, "segtable", "goal", goal="checks.c18:goal_segtable", env={"sentinels": {"segmented_index_out": SEG_SENTINEL}})
+      nm = {"w": w, "g": g, "k": kk, "ngeom": ng, "nworld": nw}
+      ctx.prove(s2, "segment-table/value", kt.post("segmented_index_out", kk) == kk * ng, z3.And(kk >= 0, kk <= nw, kt.written("segmented_index_out", kk)), names=nm, replay=nr, desc="_sap_project writes a segment boundary other than k*ngeom: the segmented sort leaves part of a world's projections unsorted")
+      ctx.prove(s2, "segment-table/start-written", kt.written("segmented_index_out", w), g == 0, names=nm, replay=nr, desc="_sap_project: thread (w, 0) does not write the start of world w's sort segment")
+      ctx.prove(s2, "segment-table/closing-written", kt.written("segmented_index_out", nw), z3.And(g == 0, w == nw - 1), names=nm, replay=nr, desc="_sap_project: the closing segment boundary seg[nworld] is never written")
   # the geometric lemma connecting bounding spheres and their projections (reference level, no code involved):
   # |x1-x2| <= R, |dir| = 1  =>  |dir.(x1-x2)| <= R.   Step 1 Lagrange identity (polynomial identity), step 2 the abstract bound.
   x1, x2, dd = vec3("x1_"), vec3("x2_"), vec3("d_")
